@@ -594,7 +594,13 @@ def decode_jobs(ir_path, tier, solver_ms):
             if hexbin:
                 # shifts and masks only: the whole digit string can be free
                 cap = 8 if lim.startswith("-") else 16  # the negative path costs ~20x more per free digit
-                ks = range(1, len(digits) + 1) if tier != "quick" else sorted({1, 2, min(len(digits), cap)})
+                if tier == "quick":
+                    ks = sorted({1, 2, min(len(digits), cap)})
+                else:
+                    # whole digit string for hexadecimal; binary up to 24 free digits (40 free binary digits of a
+                    # 64-bit type take ~20 min per query) plus the whole string where it has at most 32 digits
+                    full = len(digits) if (digits and (lim.lstrip("-")[:2] == "0x" or len(digits) <= 32)) else 0
+                    ks = sorted(set(range(1, min(len(digits), 24) + 1)) | ({full} if full else set()))
             else:
                 ks = range(1, min(ktail, len(digits) - 1) + 1)
             for k in ks:
